@@ -8,7 +8,7 @@ Import ListNotations.
 Theorem C14_one_definition_per_key :
   forall p r m inputs outputs, build_checked p r = inl m ->
   all_vars (r_inputs r) = Some inputs -> all_vars (r_outputs r) = Some outputs ->
-  let p' := with_main p (Some (main_args inputs)) outputs in
+  let p' := final_prog p r inputs outputs in
   NoDup (fkeys m) /\ (forall k, In k (used_fkeys p' m) <-> In k (fkeys m)).
 Proof. intros p r m i o H Hi Ho p'. apply build_checked_inv in H. destruct H as [_ Hv].
   exact (functions_one_per_key p r m i o Hi Ho Hv). Qed.
@@ -37,7 +37,7 @@ Print Assumptions C14_differing_bodies_rejected.
 Theorem C14_function_imports_cover_body :
   forall p r m inputs outputs, build_checked p r = inl m ->
   all_vars (r_inputs r) = Some inputs -> all_vars (r_outputs r) = Some outputs ->
-  let p' := with_main p (Some (main_args inputs)) outputs in
+  let p' := final_prog p r inputs outputs in
   forall f u dv, In f (mfunctions m) -> In u (flat_map srcs_node (f_body f)) -> In dv (node_req p' u) ->
   exists iv, In iv (f_imports f) /\ fst iv = fold_domain (fst dv) /\ snd dv <= snd iv.
 Proof. intros p r m i o H Hi Ho p' f u dv. apply build_checked_inv in H. destruct H as [_ Hv].
@@ -49,7 +49,7 @@ Print Assumptions C14_function_imports_cover_body.
 Theorem C14_call_means_body :
   forall p r m inputs outputs, build_checked p r = inl m ->
   all_vars (r_inputs r) = Some inputs -> all_vars (r_outputs r) = Some outputs ->
-  let p' := with_main p (Some (main_args inputs)) outputs in
+  let p' := final_prog p r inputs outputs in
   forall f, In f (mfunctions m) ->
   forall (val : Type) (dv : val) (opsem : nat -> list (option val) -> list (clos val) -> list val),
   (forall n ivs c1 c2, Forall2 (fun a b => forall av, a av = b av) c1 c2 -> opsem n ivs c1 = opsem n ivs c2) ->
